@@ -3,6 +3,7 @@ package main
 import (
 	"encoding/json"
 	"fmt"
+	"os"
 	"strings"
 	"sync"
 	"time"
@@ -119,7 +120,36 @@ func scenario(rule string, B, child, first uint64) (lockAddr string, pre *chain.
 	return
 }
 
-type bconf struct{ mat, allow, require, first, span uint64 }
+type bconf struct{ Mat, Allow, Require, First, Span uint64 }
+
+// onlyCase restricts the boundary run to one saved case (replay mode).
+var onlyCase *struct {
+	Conf bconf           `json:"conf"`
+	Case json.RawMessage `json:"case"`
+}
+
+func replayBoundary(c *vlib.Ctx) {
+	b, err := os.ReadFile(c.Replay)
+	if err != nil {
+		c.Fatal("replay: %v", err)
+	}
+	var f struct {
+		What string `json:"what"`
+		Case struct {
+			Conf bconf           `json:"conf"`
+			Case json.RawMessage `json:"case"`
+		} `json:"case"`
+	}
+	if json.Unmarshal(b, &f) != nil || len(f.Case.Case) == 0 {
+		c.Fatal("replay file holds neither a behaviour nor a boundary case")
+	}
+	onlyCase = &f.Case
+	fmt.Printf("replaying boundary case %s in configuration %+v; required: %s must not happen\n", f.Case.Case, f.Case.Conf, f.What)
+	boundaryRun(c)
+	if c.NViolations() == 0 {
+		fmt.Println("observed: the saved case no longer violates the property on this tree")
+	}
+}
 
 func boundaryRun(c *vlib.Ctx) {
 	confs := []bconf{{1, 1, 14, 1, 3}, {0, 0, 14, 1, 3}, {3, 1, 14, 1, 4}, {1, 3, 5, 3, 1}, {0, 2, 3, 2, 1}}
@@ -129,9 +159,12 @@ func boundaryRun(c *vlib.Ctx) {
 	var mu sync.Mutex
 	cells := map[string]int{}
 	var nCases, nTime, skipped int64
+	if onlyCase != nil {
+		confs = []bconf{onlyCase.Conf}
+	}
 	for _, cf := range confs {
 		cfg := fmt.Sprintf("INIT Init\nNEXT Next\nCONSTANTS MatDelay = %d AllowH = %d RequireH = %d First = %d Span = %d\nINVARIANTS Monotone\nCHECK_DEADLOCK FALSE\n",
-			cf.mat, cf.allow, cf.require, cf.first, cf.span)
+			cf.Mat, cf.Allow, cf.Require, cf.First, cf.Span)
 		res := c.MustTLC(vlib.TLCOpts{SpecDirs: []string{"ledger"}, Module: "Boundary", ConfText: cfg, Workers: 2})
 		var cases struct {
 			H []hcase `json:"h"`
@@ -193,17 +226,23 @@ func boundaryRun(c *vlib.Ctx) {
 			}
 		}
 		for _, hc := range cases.H {
-			p := chain.Params{MatDelay: cf.mat, AllowH: cf.allow, RequireH: cf.require, EphH: 0, FoundH: 1000, Reward: 500,
+			if onlyCase != nil {
+				js, _ := json.Marshal(hc)
+				if !sameJSON(js, onlyCase.Case) {
+					continue
+				}
+			}
+			p := chain.Params{MatDelay: cf.Mat, AllowH: cf.Allow, RequireH: cf.Require, EphH: 0, FoundH: 1000, Reward: 500,
 				GenSF: []chain.AbsOut{{7000, "A"}, {3000, "B"}}}
-			lock, pre, test, ok := scenario(hc.Rule, hc.B, hc.Child, cf.first)
-			first := cf.first
+			lock, pre, test, ok := scenario(hc.Rule, hc.B, hc.Child, cf.First)
+			first := cf.First
 			if hc.Rule == "mat-v1" || hc.Rule == "mat-v2" {
 				// the miner payout of block b matures at b + MatDelay
-				if hc.B < cf.mat+1 || hc.B-cf.mat >= hc.Child {
+				if hc.B < cf.Mat+1 || hc.B-cf.Mat >= hc.Child {
 					skipped++
 					continue
 				}
-				b := hc.B - cf.mat
+				b := hc.B - cf.Mat
 				ver := 1
 				if hc.Rule == "mat-v2" {
 					ver = 2
@@ -215,7 +254,7 @@ func boundaryRun(c *vlib.Ctx) {
 				skipped++
 				continue
 			}
-			if pre != nil && ((pre.Ver == 1 && first >= cf.require) || (pre.Ver == 2 && first < cf.allow) || first >= hc.Child) {
+			if pre != nil && ((pre.Ver == 1 && first >= cf.Require) || (pre.Ver == 2 && first < cf.Allow) || first >= hc.Child) {
 				skipped++
 				continue
 			}
@@ -223,14 +262,20 @@ func boundaryRun(c *vlib.Ctx) {
 				p.GenSF = []chain.AbsOut{{7000, "A"}, {3000, lock}}
 			}
 			p.GenSC = []chain.AbsOut{{600000, "A"}, {5000, lock}, {7000, "A"}}
-			name := fmt.Sprintf("%s B=%d child=%d (mat %d allow %d require %d)", hc.Rule, hc.B, hc.Child, cf.mat, cf.allow, cf.require)
+			name := fmt.Sprintf("%s B=%d child=%d (mat %d allow %d require %d)", hc.Rule, hc.B, hc.Child, cf.Mat, cf.Allow, cf.Require)
 			nCases++
 			wg.Add(1)
 			sem <- struct{}{}
 			go runOne(name, p, nil, pre, first, hc.Child, test, hc.OK, map[string]any{"conf": cf, "case": hc})
 		}
-		if cf.allow <= 1 {
+		if cf.Allow <= 1 {
 			for _, tc := range cases.T {
+				if onlyCase != nil {
+					js, _ := json.Marshal(tc)
+					if !sameJSON(js, onlyCase.Case) {
+						continue
+					}
+				}
 				// block i (height i) carries ts[i+1]; the transaction is presented in the child of the tip n-1
 				ts := map[uint64]time.Time{}
 				for i := 1; i < len(tc.TS); i++ {
@@ -246,7 +291,7 @@ func boundaryRun(c *vlib.Ctx) {
 					skipped++
 					continue
 				}
-				p := chain.Params{MatDelay: cf.mat, AllowH: cf.allow, RequireH: cf.require, EphH: 0, FoundH: 1000, Reward: 500,
+				p := chain.Params{MatDelay: cf.Mat, AllowH: cf.Allow, RequireH: cf.Require, EphH: 0, FoundH: 1000, Reward: 500,
 					GenSF: []chain.AbsOut{{7000, "A"}, {3000, "B"}}, GenSC: []chain.AbsOut{{600000, "A"}, {5000, lockName}, {7000, "A"}}}
 				test := chain.AbsTx{Ver: 2, Sci: []chain.AbsIn{in(gid(gLock))}, Sco: []chain.AbsOut{{5000, "B"}}, Tag: "after-v2"}
 				name := fmt.Sprintf("after-v2 pattern=%s n=%d lock=%d", tc.Pattern, tc.N, tc.Lock)
@@ -257,6 +302,9 @@ func boundaryRun(c *vlib.Ctx) {
 			}
 		}
 		wg.Wait()
+	}
+	if onlyCase != nil {
+		return
 	}
 	c.Cov("boundary_height_cases", nCases)
 	c.Cov("boundary_time_cases", nTime)
@@ -274,3 +322,14 @@ func boundaryRun(c *vlib.Ctx) {
 }
 
 
+
+
+func sameJSON(a, b []byte) bool {
+	var x, y any
+	if json.Unmarshal(a, &x) != nil || json.Unmarshal(b, &y) != nil {
+		return false
+	}
+	ja, _ := json.Marshal(x)
+	jb, _ := json.Marshal(y)
+	return string(ja) == string(jb)
+}
